@@ -87,6 +87,13 @@ func loadTable(c *core.Ctx, initFn *ssa.Function, field string, maxLen int) (rs 
 				}
 				return nil
 			}
+			// the table's loaders are the users': none of them is of a type declared by the library
+			t.typeTest = func(v absint.Value, T types.Type) (bool, bool) {
+				if tok, ok := v.(*absint.Tok); ok && tok.Class == "loader" && !types.IsInterface(T) {
+					return false, true
+				}
+				return false, false
+			}
 			if ro.Sorter != nil {
 				t.callee[ro.Sorter] = func(ip *absint.Interp, a []absint.Value) absint.Value {
 					in, ok := a[0].(*absint.List)
@@ -138,38 +145,37 @@ func loadTable(c *core.Ctx, initFn *ssa.Function, field string, maxLen int) (rs 
 				}
 				return absint.Nil{}
 			}
-			if viaSet {
-				ip0 := absint.New(t)
-				ip0.IsLog, ip0.InScope = core.IsLogCall, c.InScope
-				if out := ip0.Run(setL, []absint.Value{cfg, &absint.List{Elems: append([]absint.Value(nil), ls.Elems...)}}, nil); out.Undecided != nil {
-					panic(&absint.Undecided{Msg: "SetLoaders: " + out.Undecided.Msg})
-				} else if out.Panic != nil {
-					panic(&absint.Undecided{Msg: "SetLoaders panics: " + out.Panic.Msg})
-				}
-			} else if add != nil {
-				// the loaders are registered the way users register them: one AddLoaders call with the first, one
-				// with the rest (so the list the start routine loads from is whatever AddLoaders fills, wherever it lives)
-				ip0 := absint.New(t)
-				ip0.IsLog, ip0.InScope = core.IsLogCall, c.InScope
-				for k, part := range [][]absint.Value{ls.Elems[:min(1, len(ls.Elems))], ls.Elems[min(1, len(ls.Elems)):]} {
-					if len(part) == 0 {
-						continue
-					}
-					if out := ip0.Run(add, []absint.Value{cfg, &absint.List{Elems: append([]absint.Value(nil), part...)}}, nil); out.Undecided != nil {
-						panic(&absint.Undecided{Msg: "AddLoaders: " + out.Undecided.Msg})
+			// the registration runs in the interpreter of the run itself, so that its choices are enumerated as well
+			t.setup = func(ip0 *absint.Interp) {
+				if viaSet {
+					if out := ip0.Run(setL, []absint.Value{cfg, &absint.List{Elems: append([]absint.Value(nil), ls.Elems...)}}, nil); out.Undecided != nil {
+						panic(&absint.Undecided{Msg: "SetLoaders: " + out.Undecided.Msg})
 					} else if out.Panic != nil {
-						panic(&absint.Undecided{Msg: "AddLoaders panics: " + out.Panic.Msg})
+						panic(&absint.Undecided{Msg: "SetLoaders panics: " + out.Panic.Msg})
 					}
-					if k == 0 && twoPhase {
-						// a first start with the first loader alone, everything succeeding
-						quiet = true
-						if out := ip0.Run(initFn, []absint.Value{cfg}, nil); out.Undecided != nil {
-							panic(&absint.Undecided{Msg: "first Initialize: " + out.Undecided.Msg})
-						} else if out.Panic != nil {
-							panic(&absint.Undecided{Msg: "first Initialize panics: " + out.Panic.Msg})
+				} else if add != nil {
+					// the loaders are registered the way users register them: one AddLoaders call with the first, one
+					// with the rest (so the list the start routine loads from is whatever AddLoaders fills, wherever it lives)
+					for k, part := range [][]absint.Value{ls.Elems[:min(1, len(ls.Elems))], ls.Elems[min(1, len(ls.Elems)):]} {
+						if len(part) == 0 {
+							continue
 						}
-						quiet = false
-						trace, want = nil, nil
+						if out := ip0.Run(add, []absint.Value{cfg, &absint.List{Elems: append([]absint.Value(nil), part...)}}, nil); out.Undecided != nil {
+							panic(&absint.Undecided{Msg: "AddLoaders: " + out.Undecided.Msg})
+						} else if out.Panic != nil {
+							panic(&absint.Undecided{Msg: "AddLoaders panics: " + out.Panic.Msg})
+						}
+						if k == 0 && twoPhase {
+							// a first start with the first loader alone, everything succeeding
+							quiet = true
+							if out := ip0.Run(initFn, []absint.Value{cfg}, nil); out.Undecided != nil {
+								panic(&absint.Undecided{Msg: "first Initialize: " + out.Undecided.Msg})
+							} else if out.Panic != nil {
+								panic(&absint.Undecided{Msg: "first Initialize panics: " + out.Panic.Msg})
+							}
+							quiet = false
+							trace, want = nil, nil
+						}
 					}
 				}
 			}
